@@ -4,4 +4,9 @@
 use crate::program::Op;
 use crate::sim::Sim;
 
-pub fn exec_op2(_sim: &Sim, _op: &Op, _in_cb: bool) {}
+pub fn exec_op2(sim: &Sim, op: &Op, _in_cb: bool) {
+    match op {
+        Op::InsertLifecycle { id, with_ping, synth, script, .. } => crate::life::insert_lifecycle(sim, *id, *with_ping, synth, script),
+        _ => {}
+    }
+}
